@@ -538,6 +538,9 @@ func legC12Hist(c *Ctx) {
 			book = append(book, int64(len(runeSizes)))
 			for k := range runeSizes {
 				if cp, _, ok := regexp2.VerifRuneBufPeek(k); ok {
+					if cp != runeSizes[k] {
+						fail(i, st, "rune buffer of capacity %d filed under size class %d", cp, runeSizes[k])
+					}
 					mask |= 1 << (8 + k)
 					book = append(book, int64(cp))
 					gates[fmt.Sprintf("rune-class%d", k)]++
@@ -550,7 +553,11 @@ func legC12Hist(c *Ctx) {
 			}
 			book = append(book, int64(len(byteSizes)))
 			for k := range byteSizes {
-				if cp, _, ok := regexp2.VerifByteBufPeek(k); ok && !byteDirty {
+				cpb, _, okb := regexp2.VerifByteBufPeek(k)
+				if okb && cpb != byteSizes[k] {
+					fail(i, st, "replace buffer of capacity %d filed under size class %d", cpb, byteSizes[k])
+				}
+				if cp, ok := cpb, okb; ok && !byteDirty {
 					mask |= 1 << (16 + k)
 					book = append(book, int64(cp))
 					gates[fmt.Sprintf("byte-class%d", k)]++
@@ -873,7 +880,7 @@ func c12ModelStep(st *c12Step, s *c12Shared, tok func(string) int64, mask int64,
 			pos = start + bump
 		}
 		probe := s.spec.compile()
-		kind, idx, ln, tp := probe.VerifScan(code == 1, runes, false, int(start), int(prevlen), true)
+		kind, idx, ln, tp := c12SafeScan(probe, code == 1, runes, int(start), int(prevlen))
 		addRow([]int64{0, re, code, token, start, pos, int64(kind), int64(idx), int64(ln), int64(tp)})
 		if kind != 1 {
 			break
@@ -881,6 +888,15 @@ func c12ModelStep(st *c12Step, s *c12Shared, tok func(string) int64, mask int64,
 		start, prevlen = int64(tp), int64(ln)
 	}
 	return ms
+}
+
+func c12SafeScan(re *regexp2.Regexp, useQuick bool, runes []rune, start, prevlen int) (kind, idx, ln, tp int) {
+	defer func() {
+		if recover() != nil {
+			kind, idx, ln, tp = 9, 0, 0, 0 // e.g. a start position taken from a corrupted previous match
+		}
+	}()
+	return re.VerifScan(useQuick, runes, false, start, prevlen, true)
 }
 
 // ---------- pool_index ----------
